@@ -218,26 +218,31 @@ def merge_and_product(chk, rid):
   v = FnView(repo, K.ASSQL)
   joins = [c for n, c in v.all_calls() if call_tail(c) == 'join' and
            isinstance(c.func, ast.Attribute) and const_str(c.func.value) is not None]
-  where = [c for c in joins if 'constraints' in norm(c.args[0] if c.args else c)]
+  where = [c for c in joins if c.args and 'constraints' in norm(v.expand(c.args[0]), 2000)]
   chk.ob(rid, bool(where) and all(sql_tokens(const_str(c.func.value)) == ['AND'] for c in where),
          None, 'WHERE joins the constraints with AND',
          'constraints are combined with %s' % [const_str(c.func.value) for c in where], fi=v.fi)
-  frm = [c for c in joins if dotted(c.args[0]) == 'tables' if c.args]
+  frm = [c for c in joins if c.args and dotted(c.args[0]) == 'tables']
   chk.ob(rid, bool(frm) and all(const_str(c.func.value).strip() == ',' for c in frm), None,
          'FROM is a comma (cross) join of the tables',
          'tables are combined with %r' % [const_str(c.func.value) for c in frm], fi=v.fi)
-  loops = [x for x in walk_local(v.fi.node) if isinstance(x, ast.For) and
-           dotted(x.iter) == 'self.constraints']
+  # loops and comprehensions over self.constraints, with the filter they apply
+  loops = []
+  for x in walk_local(v.fi.node):
+    if isinstance(x, ast.For) and dotted(x.iter) == 'self.constraints':
+      loops.append([c for c in ast.walk(x) if isinstance(c, ast.Compare)])
+    elif isinstance(x, (ast.ListComp, ast.GeneratorExp, ast.SetComp)) and any(
+        dotted(g.iter) == 'self.constraints' for g in x.generators):
+      loops.append([c for g in x.generators for i in g.ifs for c in ast.walk(i)
+                    if isinstance(c, ast.Compare)])
   skipped = set()
-  for l in loops:
-    for x in ast.walk(l):
-      if isinstance(x, ast.Compare) and isinstance(x.ops[0], ast.NotIn):
-        d = dotted(x.comparators[0])
-        for y in v.assigned_from(d) if d else []:
-          try:
-            skipped |= set(tables.const_value(y))
-          except AnalysisError:
-            pass
+  for cmps in loops:
+    for x in cmps:
+      if isinstance(x.ops[0], ast.NotIn):
+        try:
+          skipped |= set(tables.const_value(x.comparators[0]))
+        except AnalysisError:
+          pass
   chk.ob(rid, bool(loops) and skipped <= {'~'}, None,
          'every constraint except the type hint ~ reaches WHERE',
          'constraints with predicate %s are dropped from WHERE' % sorted(skipped - {'~'}), fi=v.fi)
